@@ -116,6 +116,17 @@ if __name__ == "__main__":
         print(json.dumps(res, indent=1))
     elif sys.argv[1] == "confirm":
         confirm(sys.argv[2], sys.argv[3])
+    elif sys.argv[1] == "recheck":
+        # final detection run: every seeded change against the CURRENT quick check of its target property
+        sids = sys.argv[2:] or sorted(os.listdir(os.path.join(HERE, "seeded")))
+        for sid in sids:
+            mp = os.path.join(HERE, "seeded", sid, "meta.json")
+            meta = json.load(open(mp))
+            res = evaluate(sid)
+            meta = json.load(open(mp))
+            r = res[meta["property"]]
+            meta["recheck"] = {"exit": r["exit"], "clauses": r["clauses"], "wall_s": r["wall_s"], "verif_commit": subprocess.run(["git", "-C", HERE, "rev-parse", "--short", "HEAD"], capture_output=True, text=True).stdout.strip()}
+            json.dump(meta, open(mp, "w"), indent=1)
     elif sys.argv[1] == "matrix":
         # every quick check against every (listed) seeded change: which other properties does a change break, and does any
         # check alarm where the property is intact?  Stored in seeded/<id>/meta.json under "cross".
